@@ -574,6 +574,59 @@ func TestVerifC02(t *testing.T) {
 		}, emit)
 	}
 
+	// --- round 5: the protection switch as part of the history (real
+	// handlers, the clock an input): an answer revealing a blocked CNAME target
+	// / address is replaced exactly while protection is in force by the last
+	// accepted switch
+	{
+		mk := func(protOn bool, deadline int) *plServer {
+			c := base()
+			c.ProtEnabled, c.Deadline = protOn, deadline
+			return plNewServer(t, c)
+		}
+		k := 0
+		plProtPrelude(t, out, mk, func() *plQuery {
+			k++
+			ans := []*dns.Msg{plMsg(0, bad, good), plMsg(0, noise, good, badA), plMsg(0, noise, good),
+				plMsg(0, plHTTPS("x.test.", 371, []string{"93.184.216.34", "1.2.3.4"}, nil, true))}[k%4]
+			qt := uint16(dns.TypeA)
+			if k%4 == 3 {
+				qt = dns.TypeHTTPS
+			}
+			return &plQuery{Name: "x.test.", QType: qt, Addr: cli, Answer: ans}
+		}, emit)
+	}
+	nProt := out.Scale(24, 700)
+	for i := 0; i < nProt; i++ {
+		ps := plNewServer(t, plProtCfg(rnd, c02Targets))
+		plRunProt(t, out, rnd, ps, 12, func() *plQuery {
+			name := vfMixCase(rnd, vfPick(rnd, append([]string{"www.example", "www.example"}, vfNames...))) + "."
+			qt := vfPick(rnd, []uint16{dns.TypeA, dns.TypeA, dns.TypeAAAA, dns.TypeHTTPS})
+			return &plQuery{Name: name, QType: qt, Addr: netip.MustParseAddr(vfPick(rnd, plClientAddrs)), Answer: c02Answer(rnd, name, qt)}
+		}, emit)
+	}
+
+	// --- round 5: refresh passes over sources that change and fail (as in
+	// C01), with answers revealing what the stored files block
+	nRf := out.Scale(10, 300)
+	for i := 0; i < nRf; i++ {
+		c := plGenCfg(rnd, c02Targets)
+		if rnd.Chance(4, 5) {
+			c.ProtEnabled, c.Deadline, c.Filtering = true, 0, true
+		}
+		plGenLists(rnd, c, c02Targets)
+		ps := plNewServer(t, c)
+		plRunRefresh(t, out, rnd, ps, 12, c02Targets, func(name string) *plQuery {
+			if _, perr := netip.ParseAddr(strings.TrimSuffix(name, ".")); perr == nil {
+				// (an address of the rule universe is not a question name)
+				name = "cdn.example."
+			}
+			qn := vfPick(rnd, []string{"www.example.", "x.test.", name})
+			qt := vfPick(rnd, []uint16{dns.TypeA, dns.TypeA, dns.TypeAAAA, dns.TypeHTTPS})
+			return &plQuery{Name: qn, QType: qt, Addr: netip.MustParseAddr(vfPick(rnd, plClientAddrs)), Answer: c02Answer(rnd, qn, qt)}
+		}, emit)
+	}
+
 	// --- round 2 random: all features on, answers with offending records for names and rewrite targets
 	nX := out.Scale(80, 2400)
 	for i := 0; i < nX; i++ {
